@@ -508,6 +508,8 @@ class ThreadPoolServer(Server):
             err_msg = "Failed to serve client for {}, caught exception".format(addrinfo)
             self.logger.exception(err_msg)
             sock.close()
+            # forget the socket Server.accept() tracked for this client, as the success path does
+            self.clients.clear()
 
 
 class ForkingServer(Server):
